@@ -111,8 +111,10 @@ MFree == "free" \in Ops /\ \E d \in live :
             Free(d) /\ log' = [log EXCEPT ![d] = <<>>] /\ Step
 
 MCInit == Init /\ hist = <<>> /\ n = 0 /\ log = [d \in Dicts |-> <<>>]
+\* closing step: a single successor, so that a simulated behaviour is emitted once
+MFin == n = MaxDepth /\ n' = n + 1 /\ UNCHANGED <<dict, live, last, hist, log>>
 MCNext == MAlloc \/ MSet \/ MSetAlias \/ MGet \/ MDelete \/ MDup \/ MImport \/ MCopy
-          \/ MCmp \/ MIterate \/ MFree
+          \/ MCmp \/ MIterate \/ MFree \/ MFin
 Spec == MCInit /\ [][MCNext]_vars
 
 -----------------------------------------------------------------------------
@@ -121,7 +123,7 @@ Spec == MCInit /\ [][MCNext]_vars
 LogAgrees == \A d \in Dicts : \A k \in Keys : Lookup(dict[d], k) = Latest(log[d], k)
 LastStored == [][LogAgrees']_vars
 
-DepthBound == n <= MaxDepth
+DepthBound == n <= MaxDepth + 1
 HideHistory == <<dict, live, n>>
 
 \* BEH idiom: the behaviour with predicted results, plus a final audit of
@@ -129,6 +131,6 @@ HideHistory == <<dict, live, n>>
 Audit == [gets  |-> {[d |-> d, k |-> k, res |-> Lookup(dict[d], k)] : d \in live, k \in Keys},
           iters |-> {[d |-> d, res |-> DOMAIN dict[d]] : d \in live},
           cmps  |-> {[d |-> d, s |-> e, res |-> CmpRes(d, e)] : d \in live, e \in live}]
-Done == n = MaxDepth
+Done == n = MaxDepth + 1
 EmitDone == Done => PrintT(<<"BEH", ToJson([h |-> hist, audit |-> Audit])>>)
 =============================================================================
